@@ -599,6 +599,10 @@ func (r *room) doChat(sc *simClient) {
 	}
 	if rapid.Bool().Draw(t, "withId") {
 		m.Id = fmt.Sprintf("id%d", r.chatN)
+		// ids are chosen by the clients: two members may well use the same one
+		if rapid.IntRange(0, 2).Draw(t, "sharedId") == 0 {
+			m.Id = rapid.SampledFrom([]string{"dup1", "dup2"}).Draw(t, "dupId")
+		}
 	}
 	r.takeAll()
 	if spoof != "" {
@@ -938,6 +942,10 @@ func (r *room) doClearChat(sc *simClient) {
 		if g != nil && len(g.hist) > 0 {
 			h := g.hist[rapid.IntRange(0, len(g.hist)-1).Draw(t, "ch")]
 			id, userId = h.id, h.source
+			if rapid.IntRange(0, 3).Draw(t, "otherSender") == 0 {
+				// the right id with somebody else's user id: removes nothing of the first one's
+				userId = r.s.cs[rapid.IntRange(0, len(r.s.cs)-1).Draw(t, "cu2")].id
+			}
 		} else {
 			id, userId = "idX", "c0"
 		}
